@@ -31,7 +31,15 @@ def _cells_ok(t):
         # there is no i-th row to compare; whether iterating a zero-row table may raise
         # (it does on this code base: empty columns have no dtype) is not fixed by the statement
         return None
-    it_rows = [[V.tv(x) for x in row] for row in t]
+    it_rows = []
+    it_sliced = []
+    for row in t:
+        it_rows.append([V.tv(x) for x in row])
+        try:
+            it_sliced.append([V.tv(x) for x in row[:]])     # a vector-level read of the same row
+        except Exception as ex:
+            it_sliced.append(None)
+            ex = None
     if len(it_rows) != n:
         return ("C02/row-col-mismatch", "iteration yields %d rows, len is %d" % (len(it_rows), n), {"how": "iter-count"})
     for i in range(n):
@@ -41,6 +49,8 @@ def _cells_ok(t):
             return ("C02/row-col-mismatch", "t[%d] is %s, columns say %s" % (i, got, want_row), {"how": "index"})
         if it_rows[i] != want_row:
             return ("C02/row-col-mismatch", "iterated row %d is %s, columns say %s" % (i, it_rows[i], want_row), {"how": "iter"})
+        if it_sliced[i] is not None and it_sliced[i] != want_row:
+            return ("C02/row-col-mismatch", "iterated row %d read through row[:] is %s, columns say %s" % (i, it_sliced[i], want_row), {"how": "iter-slice"})
         if n and i == n - 1:
             gotn = [V.tv(x) for x in t[-1]]
             if gotn != want_row:
